@@ -199,7 +199,7 @@ for name, inst, tier in [
     ("step_down4_other_nodealloc_b0", "down, MIN_ALIGN 4, WithoutDealloc: operations on the non-newest block", "thorough"),
     ("step_up1_other_set_noshrink_b0", "up, SHRINKS = false: operations on the non-newest block", "thorough"),
 ]:
-    A("step", name, STEP_PROPS + ["C07"], inst, tags=["op7", "op8", "op9", "b0"], tier=tier, mem_gb=7, timeout_s=2400)
+    A("step", name, STEP_PROPS + ["C07"], inst, tags=["op7", "op8", "op9", "b0"] + (["misaligned"] if "down" in name else []), tier=tier, mem_gb=7, timeout_s=2400)
 
 # C14 claim
 for name, inst, tags, tier in [
